@@ -6,6 +6,7 @@ package rosmar
 
 import (
 	"database/sql"
+	"fmt"
 	"reflect"
 	"sort"
 	"strings"
@@ -369,4 +370,33 @@ func VerifGlobalHLCHighest() uint64 {
 	hlc.mutex.Lock()
 	defer hlc.mutex.Unlock()
 	return hlc.highestTime
+}
+
+// verifCollCache returns the handle's name -> collection-id cache.
+func verifCollCache(b *Bucket) map[string]uint32 {
+	f, ok := verifField(b, func(f reflect.StructField) bool {
+		return f.Type.Kind() == reflect.Map && f.Type.Elem() == reflect.TypeOf((*Collection)(nil))
+	})
+	if !ok || f.IsNil() {
+		return nil
+	}
+	out := map[string]uint32{}
+	it := f.MapRange()
+	for it.Next() {
+		c, _ := it.Value().Interface().(*Collection)
+		if c != nil {
+			out[fmt.Sprint(it.Key().Interface())] = c.GetCollectionID()
+		}
+	}
+	return out
+}
+
+// VerifCollectionCaches: the collection cache of this handle and of the registry's canonical bucket
+// of the same name (the one the expiry sweep runs on): hidden state that decides later behaviour.
+func VerifCollectionCaches(b *Bucket) (handle, canonical map[string]uint32) {
+	handle = verifCollCache(b)
+	if cb := verifRegistryBuckets()[b.GetName()]; cb != nil {
+		canonical = verifCollCache(cb)
+	}
+	return
 }
